@@ -79,7 +79,12 @@ def gen_history(rng, header, nops, malformed=0.2, stats=None):
 
     kinds = {}
     gone = set()
+    # carriers in a closed loop: in one history out of six on a fleet / conveyor, half of the loads are objects that were
+    # retrieved earlier (pallets coming back), so that an object is loaded again soon after it was unloaded
+    recirc = family in ("fleet", "slot", "cbelt") and rng.random() < 1 / 6
     def new_item():
+        if recirc and gone and rng.random() < 0.5:
+            return rng.choice(sorted(gone))
         if next_item[0] > 0 and rng.random() < 0.05:
             i = rng.randrange(next_item[0])          # the same object put again
             if family in ("fleet", "slot", "cbelt"):
@@ -89,8 +94,11 @@ def gen_history(rng, header, nops, malformed=0.2, stats=None):
         kinds[next_item[0] - 1] = rng.randrange(3)
         return next_item[0] - 1
 
-    def put_op(a, tid):
-        i = new_item()
+    inside = set()
+    def put_op(a, tid, bad=False):
+        # an ill-formed put (bad=True: its token is certainly not a granted put reservation of the caller) names, half of the time, an
+        # object that is inside the store right now: the rejected call must not touch that object's bookkeeping either
+        i = rng.choice(sorted(inside)) if (bad and inside and rng.random() < 0.5) else new_item()
         op = ["put", a, tid, i, kinds[i]]
         if family in ("buf", "bufedge"): op.append(rng.choice(DELAYS))
         if family in ("fleet", "slot", "cbelt"): op.append(0)
@@ -119,32 +127,32 @@ def gen_history(rng, header, nops, malformed=0.2, stats=None):
             t = pick()
             if m == 0 and t:      # right token, wrong actor
                 wrong = (t.actor + 1 + rng.randrange(max(1, nact))) % (nact + 1)
-                op = put_op(wrong, t.tid) if t.side == "put" else ("get", wrong, t.tid)
+                op = put_op(wrong, t.tid, True) if t.side == "put" else ("get", wrong, t.tid)
             elif m == 1:          # used token again
                 t = pick(state="used")
-                if t: op = put_op(t.actor, t.tid) if t.side == "put" else ("get", t.actor, t.tid)
+                if t: op = put_op(t.actor, t.tid, True) if t.side == "put" else ("get", t.actor, t.tid)
             elif m == 2:          # cancelled token
                 t = pick(state="cancelled")
                 if t:
                     c = rng.randrange(3)
-                    if c == 0: op = put_op(t.actor, t.tid) if t.side == "put" else ("get", t.actor, t.tid)
+                    if c == 0: op = put_op(t.actor, t.tid, True) if t.side == "put" else ("get", t.actor, t.tid)
                     else: op = ("cp" if t.side == "put" else "cg", t.tid)
             elif m == 3 and t:    # token of the other side
-                op = ("get", t.actor, t.tid) if t.side == "put" else put_op(t.actor, t.tid)
+                op = ("get", t.actor, t.tid) if t.side == "put" else put_op(t.actor, t.tid, True)
             elif m == 4:          # unknown / None token
                 tid = rng.choice([FOREIGN + rng.randrange(3), NONE_TOK])
                 c = rng.randrange(4)
-                op = [put_op(0, tid), ("get", 0, tid), ("cp", tid), ("cg", tid)][c]
+                op = [put_op(0, tid, True), ("get", 0, tid), ("cp", tid), ("cg", tid)][c]
             elif m == 5:          # pending (not yet granted) token used
                 t = pick(state="pending")
-                if t: op = put_op(t.actor, t.tid) if t.side == "put" else ("get", t.actor, t.tid)
+                if t: op = put_op(t.actor, t.tid, True) if t.side == "put" else ("get", t.actor, t.tid)
             elif m == 6 and t:    # cancel on the wrong side
                 op = ("cg" if t.side == "put" else "cp", t.tid)
             elif m == 7:          # cancel of a used token
                 t = pick(state="used")
                 if t: op = ("cp" if t.side == "put" else "cg", t.tid)
             elif m == 8:          # put / get with no reservation at all outstanding
-                op = put_op(rng.randrange(nact), len(toks) + 5) if rng.random() < .5 else ("get", rng.randrange(nact), len(toks) + 5)
+                op = put_op(rng.randrange(nact), len(toks) + 5, True) if rng.random() < .5 else ("get", rng.randrange(nact), len(toks) + 5)
         if op is None:
             r = rng.random()
             if r < 0.18:
@@ -202,8 +210,8 @@ def gen_history(rng, header, nops, malformed=0.2, stats=None):
             head = line.split("|")[0].strip()
             if op[0] in ("put", "get") and not head.startswith("err") and op[2] < len(toks):
                 toks[op[2]].state = "used"
-            if op[0] == "get" and head.startswith("item "): gone.add(int(head.split()[1]))
-            if op[0] == "put" and head == "ok": gone.discard(op[3])
+            if op[0] == "get" and head.startswith("item "): gone.add(int(head.split()[1])); inside.discard(int(head.split()[1]))
+            if op[0] == "put" and head == "ok": gone.discard(op[3]); inside.add(op[3])
             if op[0] in ("cp", "cg") and head == "ok" and op[1] < len(toks):
                 toks[op[1]].state = "cancelled"
         if stats is not None:
